@@ -83,6 +83,9 @@ def run_one(tape: Any, cfg: Dict[str, Any], forbid: FrozenSet[str] = frozenset()
         insecure = g.feature('insecure_switch', 0.25)
         opt_out = g.feature('opt_out', 0.15)
         cold = g.feature('cold_cache', 0.15)
+        second_host = (not opt_out) and g.feature('second_host', 0.3)
+        if second_host:
+            cold = True         # both hosts' certificates are then generated within this run, whatever ran before
         if insecure:
             w.probe('insecure_switch')
         if opt_out:
@@ -152,7 +155,7 @@ def run_one(tape: Any, cfg: Dict[str, Any], forbid: FrozenSet[str] = frozenset()
         # ---- optionally a second CONNECT, to another host, sharing the certificate cache -------------------------------
         cl2 = None
         host2 = None
-        if not opt_out and g.feature('second_host', 0.3):
+        if second_host:
             w.probe('second_host')
             host2, ip2, _ = [x for x in HOSTS[:3] if x[0] != host][tape.draw(2, 'host2')]
             oc2 = _px[(host2, 'good')]
